@@ -15,10 +15,11 @@ Inductive form :=
 | FSelfRef                        (* a list that (transitively) contains itself, at the point of recurrence *)
 | FOther (truthy : bool).         (* None, float, ...: unsupported type *)
 
-(* "not settings" as evaluated by apply_formatting / remove_formatting before scrubbing *)
+(* "not settings" as evaluated by apply_formatting / remove_formatting before scrubbing; a bare integer is wrapped in a
+   list first (as repaired, known_findings F45: the integer 0 is the reset code, not "nothing given") *)
 Definition form_falsy (f : form) : bool :=
   match f with
-  | FStr [] => true | FInt 0 => true | FList [] => true | FOther false => true | _ => false
+  | FStr [] => true | FList [] => true | FOther false => true | _ => false
   end.
 
 (* ---------- builders ---------- *)
